@@ -160,8 +160,8 @@ where
 {
     unsafe {
         G_SLOW_CALLS += 1;
-        // un-biased by exactly -INVALID_FP = 32768, significand untouched, the ORIGINAL digits
-        let mut ok = num == G_NUM && fp.mant == G_MOD.mant && fp.exp as i64 == G_MOD.exp as i64 + 32768;
+        // un-biased by exactly -INVALID_FP, significand untouched, the ORIGINAL digits
+        let mut ok = num == G_NUM && fp.mant == G_MOD.mant && fp.exp as i64 == G_MOD.exp as i64 - F::INVALID_FP as i64;
         let mut it = integer;
         ok = ok && it.next() == Some(&G_INT[0]) && it.next() == Some(&G_INT[1]) && it.next().is_none();
         let mut ft = fraction;
@@ -184,7 +184,7 @@ macro_rules! dispatch_harness {
             // contracts of the callees (C11 shape / slow's packing contract): definite results have
             // fields in range; a declined estimate has an exponent biased by -32768
             kani::assume(md.exp < 0 || (md.exp <= $inf && md.mant <= 1u64 << $ms));
-            kani::assume(md.exp >= 0 || md.exp >= -32768 - 200);
+            kani::assume(md.exp >= 0 || md.exp >= <$spy as Float>::INVALID_FP - 200);
             kani::assume(sl.exp >= 0 && sl.exp <= $inf && sl.mant <= 1u64 << $ms);
             let int: [u8; 2] = kani::any();
             let frac: [u8; 2] = kani::any();
